@@ -1,5 +1,6 @@
 """C07 -- Flip-flop updates are atomic at the clock edge.  (DESIGN.md section 4, C07)"""
 import ast
+import re
 
 from sa.astutil import (norm, guards_of, walk_no_nested, always_exits, parent, enclosing, stmt_of,
                         preceding_stmts, body_walk)
@@ -294,6 +295,9 @@ def rule_tick_order(repo):
             r.bad(hm, fn, cons, "pure-RTL designs need a combinational pass before the edge (inputs written since the last tick)", hf.lineno)
         elif any(k == 'comb' for k in kinds[ff[0]:fl[0]]):
             r.bad(hm, fn, cons, "combinational blocks run between ff blocks and flip", hf.lineno)
+        elif not any(k == 'comb' and not any(re.search(r'\b%s\.' % re.escape(hf.args.args[0].arg), x) for x in c) for k, c in before):
+            r.bad(hm, fn, cons, "the combinational pass before the edge depends on an option of the pass (tracing on/off): "
+                  "with it the ff blocks sample values computed from the previous inputs", hf.lineno)
         else:
             # line trace (if any) must print settled pre-edge values: after the leading comb pass, before ff
             lt = [i for i, k in enumerate(kinds) if k == 'linetrace']
@@ -816,6 +820,8 @@ def _m(name, file, old, new, rule=None, count=1):
 
 
 MUTANTS = [
+    _m('tick-pre-edge-comb-replaced-by-linetrace', PREP, "      final_schedule.append( top.print_line_trace )\n    final_schedule += self.collect_ff_funcs( top )\n    final_schedule += top._sched.update_schedule\n    final_schedule.append( top._sim.check_top_level_inports )\n    top.sim_tick = SimpleTickPass",
+       "      final_schedule = [ top.print_line_trace ]\n    final_schedule += self.collect_ff_funcs( top )\n    final_schedule += top._sched.update_schedule\n    final_schedule.append( top._sim.check_top_level_inports )\n    top.sim_tick = SimpleTickPass", 'R-tick-order'),
     _m('D19-helper-writes-not-marked', L2, "            if blk in m._dsl.update_ff:\n              for x in m._dsl.func_writes[u]:\n                if isinstance( x, Signal ) and x.is_top_level_signal():\n                  x._dsl.needs_double_buffer = True\n", "", 'R-C07-dbuf-set'),
     _m('helper-marking-only-outports', L2, "                if isinstance( x, Signal ) and x.is_top_level_signal():\n                  x._dsl.needs_double_buffer = True", "                if isinstance( x, OutPort ) and x.is_top_level_signal():\n                  x._dsl.needs_double_buffer = True", 'R-C07-dbuf-set'),
     _m('ilshift-writes-uint', BITS, "      self._next = v.to_bits()._uint\n", "      self._next = self._uint = v.to_bits()._uint\n", 'R-C07-effects'),
